@@ -13,8 +13,9 @@ import time
 from harness import core
 
 PROP = 'C02'
-UNITS = ['Create']
-PROOFS = ['theories/Equiv/Pipe.v']
+UNITS = ['Create', 'Transport']
+PROOFS = ['theories/Equiv/Pipe.v', 'theories/Equiv/TransportProofs.v']
+HEADER_T = 'From PW Require Import Equiv.Transport Equiv.TransportRun.\n'
 
 
 class Custom:
@@ -61,6 +62,93 @@ def raiser(which, *args):
     raise {'Err0': Err0, 'Err2': Err2, 'ValueError': ValueError, 'KeyError': KeyError, 'ZeroDivisionError': ZeroDivisionError}[which](*args)
 
 
+def lingering(x, secs=1.2):
+    """returns at once, but the child process stays around for a while (a non-daemon thread is still running)"""
+    threading.Thread(target=time.sleep, args=(secs,)).start()
+    return x
+
+
+def transport_histories(res, tier):
+    """the REAL ProcessWorker.wait / result / has_error (child scripted through _start, data pipe real) on every history
+    of {child sends, child exits, parent waits, parent reads the accessors}; compared with Equiv/Transport.v"""
+    import itertools
+    from harness.props.c04 import make_worker
+    from pyworkers.utils import Pipe
+    EV = ['CSend', 'CExit', 'PWait', 'PGet']
+    L = 5 if tier == 'quick' else 6
+    terms, keep = [], []
+    for n in range(1, L + 1):
+        for es in itertools.product(EV, repeat=n):
+            if es.count('CSend') > 1 or es.count('CExit') > 1:
+                continue
+            w, child, log = make_worker('KProcess', 'Coop', True)
+            w._comms = Pipe()
+            exited = False
+            obs, viol = [], None
+            sent = None
+            for e in es:
+                if e == 'CSend':
+                    if not exited:
+                        w._comms.child_end.put(((True, 41), 'state'))
+                        sent = 41
+                elif e == 'CExit':
+                    child.alive = False
+                    exited = True
+                    w._comms.child_end.close()
+                elif e == 'PWait':
+                    w.wait(timeout=0.01)
+                else:
+                    he, r, er = w.has_error, w.result, w.error
+                    if he is None:
+                        obs.append((0, 0))
+                    elif he is False:
+                        obs.append((1, r))
+                    else:
+                        obs.append((2, 0))
+                    if exited:
+                        want = (1, 41) if sent else (2, 0)
+                        if obs[-1] != want and viol is None:
+                            viol = f'after the child {"sent its result and " if sent else ""}exited the accessors show {obs[-1]} (1 = value, 2 = (False, None)), expected {want}'
+            for end in ('parent_end', 'child_end'):
+                try:
+                    getattr(w._comms, end).close()
+                except Exception:
+                    pass
+            res.count('transport-history'); res.case(('transport', es), nontrivial='CSend' in es and 'PWait' in es,
+                                                   sample=dict(history=list(es), accessors=obs))
+            if viol:
+                res.violation(dict(transport_history=list(es)), viol, observed=obs)
+            ev = {'CSend': 'CSend 41', 'CExit': 'CExit', 'PWait': 'PWait', 'PGet': 'PGet'}
+            terms.append(f'check_transport [{"; ".join(ev[e] for e in es)}] [{"; ".join(f"({a}, {b})" for a, b in obs)}]')
+            keep.append((es, obs))
+    from pyworkers.worker import Worker
+    Worker._active_children[:] = []
+    bad, err = core.coq_eval_cases(PROP + 't', HEADER_T, terms, per_file=400)
+    res.traces_validated += len(terms) - len(bad)
+    if err:
+        res.tie('correspondence:coq-eval', err)
+    for i in bad[:6]:
+        res.tie('correspondence:reception', dict(history=list(keep[i][0]), implementation=keep[i][1], term=terms[i]))
+
+
+PROTOCOLS = ['wait', 'timed-wait-then-wait', 'poll-is_alive', 'short-waits']
+
+
+def observe_protocol(w, protocol, timeout=20):
+    """different ways a caller may wait for the same worker - the outcome must not depend on them"""
+    t0 = time.time()
+    if protocol == 'timed-wait-then-wait':
+        w.wait(0.3)
+        w.has_error       # peeking while the worker may still be alive must not disturb anything
+    elif protocol == 'poll-is_alive':
+        while w.is_alive() and time.time() - t0 < timeout:
+            time.sleep(0.02)
+    elif protocol == 'short-waits':
+        while not w.wait(0.05) and time.time() - t0 < timeout:
+            pass
+    return observe(w, timeout)
+
+
 def direct(f, args, kwargs):
     try:
         return ('ok', f(*args, **kwargs))
@@ -95,6 +183,31 @@ def summarize(o):
     return o
 
 
+def main_script_cases(res, tier):
+    """values and wrapped callables that live in the MAIN SCRIPT, against a stand-alone server (harness/c02_main_driver.py)"""
+    import json
+    import subprocess
+    env = dict(os.environ)
+    env['PYTHONPATH'] = core.REPO
+    env['PYTHONHASHSEED'] = '0'
+    try:
+        p = subprocess.run([core.PY, os.path.join(core.VERIF, 'harness', 'c02_main_driver.py')], env=env, cwd=core.VERIF,
+                           stdout=subprocess.PIPE, stderr=subprocess.DEVNULL, text=True, timeout=300)
+        line = [l for l in p.stdout.split('\n') if l.startswith('C02MAIN ')]
+        out = json.loads(line[0][8:]) if line else dict(error=f'no result (exit {p.returncode})')
+    except subprocess.TimeoutExpired:
+        out = dict(error='driver did not finish within 300 s')
+    if out.get('error'):
+        res.tie('harness:main-script-driver', out['error'])
+        return
+    for c in out['cases']:
+        res.count('main-script'); res.case(('main-script', c['call'], c['kind']), nontrivial=True,
+                                           sample=dict(call=c['call'], kind=c['kind'], outcome=c['got'], direct=c['want']))
+        if c['got'] != c['want']:
+            res.violation(dict(main_script_call=c['call'], kind=c['kind']),
+                          f'{c["kind"]} worker gives {c["got"]} for {c["call"]} (objects defined in the main script), the direct call gives {c["want"]}', observed=c['got'])
+
+
 def main(tier, seed, replay=None):
     logging.disable(logging.CRITICAL)
     core.quiet_stderr(PROP)
@@ -106,7 +219,7 @@ def main(tier, seed, replay=None):
     res.assumptions = ['CPython pickle reproduces values and exceptions (type and args); sizes of OS pipe buffers are whatever this kernel provides',
                        'the pipe model of Equiv/Pipe.v: a writer blocks when the buffer is full, a reader takes what is there']
     res.trusted.append('hand-written pipe model Equiv/Pipe.v; harness/props/c02.py')
-    core.prove(res, PROP, UNITS, PROOFS)
+    core.prove(res, PROP, UNITS, PROOFS, run_files=['theories/Equiv/TransportRun.v'])
     sys.path.insert(0, core.REPO)
     from pyworkers.worker import Worker, WorkerType
     from pyworkers.thread import ThreadWorker
@@ -159,6 +272,23 @@ def main(tier, seed, replay=None):
                 if not ok:
                     res.violation(dict(call=f.__name__, args=repr(args)[:80], kwargs=repr(kwargs)[:60], kind=k[0], how=k[1]),
                                   f'{k[0]} worker ({k[1]}) gives {summarize(o)}, the direct call gives {summarize(want)}', observed=summarize(o))
+        # the same call observed through different waiting protocols, with a child which lingers after returning
+        for f, args in ((identity, ('v',)), (lingering, ([1, 2, 3],)), (sized, ('bytes', 300_000)), (raiser, ('Err2', 1, 'two'))):
+            want = direct(f, args, {})
+            if f is lingering:
+                time.sleep(1.3)
+            for kname, (cls, wt, extra) in kinds.items():
+                for proto in PROTOCOLS:
+                    if tier == 'quick' and kname == 'remote' and proto in ('short-waits',):
+                        continue
+                    w = cls(target=f, args=args, **extra)
+                    o = observe_protocol(w, proto)
+                    res.count('protocol:' + proto); res.case(('protocol', f.__name__, kname, proto), nontrivial=True,
+                                                             sample=dict(call=f.__name__, kind=kname, protocol=proto, outcome=summarize(o)))
+                    ok = (o[0] == want[0] == 'ok' and o[1] == want[1]) or (o[0] == want[0] == 'err' and o[1] is want[1] and o[2] == want[2])
+                    if not ok:
+                        res.violation(dict(call=f.__name__, args=repr(args)[:60], kind=kname, protocol=proto),
+                                      f'{kname} worker observed through `{proto}` gives {summarize(o)}, the direct call gives {summarize(want)}', observed=summarize(o))
         # workers that are not run
         for kname, (cls, wt, extra) in kinds.items():
             for label, kw in (('run=False', dict(target=identity, args=(1,), run=False)), ('target=None', dict(target=None)),
@@ -177,4 +307,6 @@ def main(tier, seed, replay=None):
                 res.violation(dict(factory=name), f'PersistentWorker.create({wt}) built {type(w).__name__}')
     finally:
         server.terminate(force=True)
+    transport_histories(res, tier)
+    main_script_cases(res, tier)
     return res.finish()
